@@ -383,8 +383,11 @@ def shards(tier):
             if tier == "quick":
                 out.append(dict(model=m, first=[first], depth=3, quick=True))
             else:
+                out.append(dict(model=m, first=[first], depth=1))
+                # thorough: every sequence of <= 3 operations on every model; on gd and block also the sequences of 4 with at most
+                # one solve / solver answer among the first three operations
                 for second in _ops_for(m):
-                    out.append(dict(model=m, first=[first, second], depth=4))
+                    out.append(dict(model=m, first=[first, second], depth=4 if m in ("gd", "block") else 3, few_solves=True))
     return out
 
 
@@ -400,6 +403,8 @@ def run_shard(shard, tier):
             cands = [first] if depth == len(first) else [first + mid + (f,) for f in finals]
             for seq in cands:
                 if seq[-1] not in finals:
+                    continue
+                if shard.get("few_solves") and len(seq) == 4 and sum(1 for o in seq[:3] if o in SOLVES or o in FAULTS) > 1:
                     continue
                 if shard.get("quick") and len(seq) == 3 and (seq[1] in SOLVES or seq[1] in FAULTS):
                     continue      # quick tier: the middle operation of a 3-sequence is an edit / evaluation (solve-solve-solve is thorough)
@@ -425,7 +430,8 @@ def replay(case):
 
 def meta(tier):
     return dict(
-        rule="all sequences of <= %d operations (quick tier: in sequences of 3 the middle operation is an edit or an evaluation) ending in a solve (or an injected solver answer) over %s on the base models "
+        rule="all sequences of <= %d operations (quick tier: <= 3, and in sequences of 3 the middle operation is an edit or an evaluation; thorough tier: all "
+             "sequences <= 3 on every model and, on gd / block, the sequences of 4 with at most one solve or solver answer among the first three) ending in a solve (or an injected solver answer) over %s on the base models "
              "%s; after each one: differential comparison with a freshly built equivalent model solved once with the same "
              "options (value, numbering-free multiset of the data sent), certificate and instance of the latest solve over "
              "the recorded sent list, eval() of every held / earlier-evaluated / post-solve-built object on the current "
